@@ -33,7 +33,7 @@ class I32Src(Src):
         self.arr, self.w = arr, w
 
     def resolve(self, off, n):
-        return ('i%d' % (8 * self.w), self.arr, off // self.w, off % self.w)
+        return ('i%d%s' % (8 * self.w, 'be' if getattr(self, 'be', False) else ''), self.arr, off // self.w, off % self.w)
 
 
 class ArrBytesSrc(Src):
@@ -116,11 +116,11 @@ class DStr(str):
 
     @property
     def itemsize(self):
-        return {'i4': 4, 'i8': 8, 'f4': 4, 'f8': 8, 'i2': 2, 'bool': 1, '>f4': 4}[str(self)]
+        return {'i4': 4, 'i8': 8, 'f4': 4, 'f8': 8, 'i2': 2, 'bool': 1, '>f4': 4, '>i4': 4}[str(self)]
 
     @property
     def kind(self):
-        return {'i': 'i', 'f': 'f', 'b': 'b', '>': 'f'}[str(self)[0]]
+        return 'i' if str(self) == '>i4' else {'i': 'i', 'f': 'f', 'b': 'b', '>': 'f'}[str(self)[0]]
 
 
 class NpSymInt(SymInt):
@@ -403,9 +403,11 @@ class LazyArr:
 
     def tobytes(self):
         flat = self.flatten()
-        w = {'i4': 4, 'i8': 8, 'f4': 4, 'f8': 8, 'i2': 2}[self.dtype]
+        w = {'i4': 4, 'i8': 8, 'f4': 4, 'f8': 8, 'i2': 2, '>i4': 4}[self.dtype]
         if self.kind == 'num':
-            return LazyBytes.of(I32Src(flat, w), flat.shape[0] * w)
+            src = I32Src(flat, w)
+            src.be = self.dtype == '>i4'      # non-native byte order: the bytes are the swapped ones
+            return LazyBytes.of(src, flat.shape[0] * w)
         return LazyBytes.of(ArrBytesSrc(flat), flat.shape[0] * w)
 
     def __iter__(self):
@@ -569,7 +571,7 @@ def _dtype_name(t):
             raise Unsupported("dtype %r" % (t,))
     m = {'intc': 'i4', 'int32': 'i4', '<i4': 'i4', 'i4': 'i4', 'int64': 'i8', '<i8': 'i8', 'i8': 'i8', 'int': 'i8',
          'float32': 'f4', '<f4': 'f4', 'f4': 'f4', 'float': 'f8', 'float64': 'f8', '<f8': 'f8', '>f4': '>f4',
-         'int16': 'i2', '<i2': 'i2', 'bool': 'bool', '|b1': 'bool'}
+         'int16': 'i2', '<i2': 'i2', 'bool': 'bool', '|b1': 'bool', '>i4': '>i4'}
     if t0 in m:
         return m[t0]
     raise Unsupported("dtype %r" % (t,))
@@ -654,7 +656,7 @@ class ShimNP:
     @staticmethod
     def _lazy(*xs):
         for x in xs:
-            if isinstance(x, (LazyArr, SymInt)):
+            if isinstance(x, (LazyArr, SymInt)) or type(x).__name__ == 'SymFloat':
                 return True
             if isinstance(x, (tuple, list)) and ShimNP._lazy(*x):
                 return True
@@ -705,6 +707,8 @@ class ShimNP:
     def asarray(self, a, dtype=None, **kw):
         if isinstance(a, LazyArr):
             return a if dtype is None else a.astype(dtype)
+        if type(a).__name__ == 'SymFloat':
+            return LazyArr((), lambda idx: a, 'num', 'f8')
         if is_sym(a):
             return LazyArr((), lambda idx: a, 'num', 'i8')
         return real_np.asarray(a, dtype=dtype, **kw)
@@ -712,6 +716,8 @@ class ShimNP:
     def array(self, a, dtype=None, **kw):
         if isinstance(a, LazyArr):
             return a.copy() if dtype is None else a.astype(dtype)
+        if type(a).__name__ == 'SymFloat':
+            return LazyArr((), lambda idx: a, 'num', 'f8')
         if is_sym(a):
             return LazyArr((), lambda idx: a, 'num', 'i8')
         return real_np.array(a, dtype=dtype, **kw)
@@ -748,6 +754,8 @@ class ShimNP:
             start, stop, step = a[0], a[1], 1
         else:
             start, stop, step = a
+        if any(type(v).__name__ == 'SymFloat' for v in (start, stop, step)):
+            return _arange_fp(start, stop, step)
         isf = False
         vals = []
         for v in (start, stop, step):
@@ -856,6 +864,23 @@ class ShimNP:
 
 
 ALWAYS_LAZY = [False]
+
+
+def _arange_fp(start, stop, step):
+    """numpy.arange for binary64 arguments: length = ceil((stop - start) / step) evaluated in double precision (clipped
+    at 0); element k = first + k * (next - first) with next = start + step, as numpy's fill loop computes it."""
+    from symx.symfloat import SymFloat, to_fp
+    import z3 as _z3
+    rne = _z3.RNE()
+    a, b, c = to_fp(start), to_fp(stop), to_fp(step)
+    q = SymFloat(_z3.fpDiv(rne, _z3.fpSub(rne, b, a), c))
+    n = q.ceil_int()
+    if n < 0:
+        n = 0
+    n = fx(n)
+    first = SymFloat(a)
+    delta = SymFloat(_z3.fpSub(rne, _z3.fpAdd(rne, a, c), a))
+    return LazyArr((n,), lambda idx: first + delta * idx[0], 'num', 'f8')
 
 
 def _array_equal_default(a, b):
